@@ -50,7 +50,7 @@ func (Prop) Assumptions() []string {
 
 var writeKinds = []string{
 	"create", "create", "create_slice", "create_slice", "create_ptr_slice", "create_ptr_slice", "create_batches",
-	"save", "save", "save_slice", "update", "updates_struct", "updates_map", "updates_self", "update_column", "update_columns",
+	"save", "save", "save_slice", "update", "updates_struct", "updates_ptr", "updates_ptr", "updates_map", "updates_self", "update_column", "update_columns",
 	"delete", "delete_select", "delete_slice", "delete_pet",
 }
 
@@ -163,7 +163,7 @@ func (p Prop) exec(c *Case, f *ops.Fault) (*execInfo, error) {
 				u.Age = 7000 + n
 				info.setAge[ev.Rec] = u.Age
 			case "BeforeUpdate":
-				if k := c.kind(); k != "update" && k != "save" && k != "updates_self" {
+				if k := c.kind(); k != "update" && k != "save" && k != "updates_self" && k != "updates_ptr" {
 					break // the operation assigns Age itself; a second assignment under another key spelling is the caller's conflict
 				}
 				n++
